@@ -68,7 +68,26 @@ pub fn execute_memoized_function<Db: Database>(
         db.get_storage().top_level_calls.push(derived_node_id);
     }
 
-    let (did_recalculate, time_updated) = if let Some((derived_node, revision)) = db
+    let (did_recalculate, time_updated) = verify_or_execute(db, derived_node_id, inner_fn);
+    db.get_storage().register_dependency_in_parent_memoized_fn(
+        NodeKind::Derived(derived_node_id),
+        time_updated,
+    );
+    did_recalculate
+}
+
+/// Brings the [`DerivedNode`] up to date (reusing, backdating or re-invoking as
+/// described on [`execute_memoized_function`]) without treating this as a call:
+/// nothing is recorded as a top-level call and no dependency is registered in
+/// whatever memoized function happens to be executing. This is what verifying
+/// a dependency must use, since a dependency being re-verified is not being
+/// called by the function on top of the dependency stack.
+fn verify_or_execute<Db: Database>(
+    db: &Db,
+    derived_node_id: DerivedNodeId,
+    inner_fn: InnerFn<Db>,
+) -> (DidRecalculate, Epoch) {
+    if let Some((derived_node, revision)) = db
         .get_storage()
         .internal
         .get_derived_node_and_revision(derived_node_id)
@@ -95,12 +114,7 @@ pub fn execute_memoized_function<Db: Database>(
     } else {
         let _create_span = debug_span!("creating_new_derived_node").entered();
         create_derived_node(db, derived_node_id, inner_fn)
-    };
-    db.get_storage().register_dependency_in_parent_memoized_fn(
-        NodeKind::Derived(derived_node_id),
-        time_updated,
-    );
-    did_recalculate
+    }
 }
 
 fn create_derived_node<Db: Database>(
@@ -240,7 +254,7 @@ fn derived_node_changed_since<Db: Database>(
     } else {
         return true;
     };
-    let did_recalculate = execute_memoized_function(db, derived_node_id, inner_fn);
+    let (did_recalculate, _) = verify_or_execute(db, derived_node_id, inner_fn);
     matches!(
         did_recalculate,
         DidRecalculate::Recalculated | DidRecalculate::Error
